@@ -6,7 +6,7 @@ def explore(ck, tier, seed, kinds, judge, n_quick=300, n_thorough=6000, profiles
     """judge(c, raw_in, clean_in, raw_out) -> list of (failure text, known finding (id, what) or None). Returns the set of distinct non-trivial cases."""
     rng = random.Random(seed)
     n = n_quick if tier == 'quick' else n_thorough
-    cases = list(extra_cases)
+    cases = list(extra_cases) + (E.quote_cases(random.Random(seed + 77), 12 if tier == 'quick' else 48) if 'mixed' in kinds or 'exact' in kinds else [])
     docrun.impl_init()
     for k in range(n):
         d = docgen.gen_doc(rng, profiles[k % len(profiles)])
@@ -59,7 +59,7 @@ def replay_case(path, judge, pid):
 TRUSTED = [
     'harness/absdoc.py reader (lxml+zipfile): abstraction from bytes to the model document and its tape - trusted; build->read round trip is part of every case',
     'python-docx load/save, lxml serialisation: not modelled (observations go through the reader)',
-    'matcher stages after the exact one (smart quotes, Markdown-stripped target, fuzzy regex): answers recorded from the running implementation and fed to the model; their contract (in-range result) is checked on every call',
+    'matcher stages after the smart-quote stage (Markdown-stripped target, fuzzy regex): answers recorded from the running implementation and fed to the model; their contract (in-range result that denotes the target) is checked on every call; the exact and the smart-quote stage are inside the model',
     'character tables (isspace, \\w) of the inline-Markdown and trimming models: instantiated tables compared with Python on the generator alphabet',
     'anchors inside marks and target runs inside another author\'s mark are OUTSIDE the engine model: there only the oracles decide (findings D30, D34); block insertions (line breaks / heading lines in the new text), the nested-insertion shortcut and cross-paragraph deletions / modifications are inside the model (the last two counted; placement oracles excused there: D26, D30)']
 
